@@ -52,12 +52,17 @@ def confirm(sid):
     return 0 if ok else 1
 
 def detect(sid, pids):
+    """with VERIF_REPO set (a scratch checkout, e.g. $VP_RUN_REPO of `vp run --with-repo`) the patch is applied
+    there and the checks of this copy of /verif run against it: /repo and /verif themselves stay untouched"""
     d = os.path.join(VERIF, "seeded", sid)
     meta = json.load(open(os.path.join(d, "meta.json")))
     pids = pids or [meta["property"]]
-    rc, o = sh(["git", "-C", "/repo", "status", "--porcelain"])
-    assert o.strip() == "", "/repo not clean: " + o
-    rc, o = sh(["git", "-C", "/repo", "apply", os.path.join(d, "patch.diff")])
+    repo = os.environ.get("VERIF_REPO", "/repo")
+    isolated = repo != "/repo"
+    if not isolated:
+        rc, o = sh(["git", "-C", repo, "status", "--porcelain"])
+        assert o.strip() == "", "/repo not clean: " + o
+    rc, o = sh(["git", "apply", os.path.join(d, "patch.diff")], cwd=repo)
     assert rc == 0, "patch does not apply: " + o
     out = {}
     # the evidence files are the record of the unchanged tree: keep them out of a run on a changed tree
@@ -75,15 +80,28 @@ def detect(sid, pids):
             out[pid] = {"exit": rc, "violation_lines": vio, "signals": [k[:300] for k in key[:6]], "wall_s": round(time.time() - t0, 1)}
             print(pid, "exit", rc, vio, *key[:6], sep="\n  ")
     finally:
-        sh(["git", "-C", "/repo", "checkout", "--", "."])
-        sh(["git", "-C", "/repo", "clean", "-fdq"])  # patches that add files
+        if isolated:
+            sh(["git", "apply", "-R", os.path.join(d, "patch.diff")], cwd=repo)
+        else:
+            sh(["git", "-C", "/repo", "checkout", "--", "."])
+            sh(["git", "-C", "/repo", "clean", "-fdq"])  # patches that add files
         for ev, txt in saved.items():
             open(ev, "w").write(txt)
     meta.setdefault("detection", {}).update(out)
     json.dump(meta, open(os.path.join(d, "meta.json"), "w"), indent=1)
+    if os.environ.get("SEED_RESULTS"):
+        with open(os.environ["SEED_RESULTS"], "a") as f:
+            f.write(json.dumps({"seed": sid, "detection": out}) + "\n")
     return 0
 
 if __name__ == "__main__":
     if sys.argv[1] == "confirm":
         sys.exit(confirm(sys.argv[2]))
+    if sys.argv[1] == "detect-all":      # detect-all <seed-id>...: each seed against its own property
+        for sid in sys.argv[2:]:
+            try:
+                detect(sid, [])
+            except AssertionError as e:
+                print(sid, "ERROR", e)
+        sys.exit(0)
     sys.exit(detect(sys.argv[2], sys.argv[3:]))
